@@ -1682,6 +1682,9 @@ class RTCSctpTransport(AsyncIOEventEmitter):
             chunk = self._sent_queue.popleft()
             self._advanced_peer_ack_tsn = chunk.tsn
             self._forward_tsn_skipped.append(chunk)
+            if chunk._sent_count and not chunk._acked:
+                # it is not in flight any more
+                self._flight_size_decrease(chunk)
 
         if self._forward_tsn_skipped:
             # build FORWARD TSN, it is repeated until the peer's cumulative
